@@ -125,6 +125,14 @@ INDEPENDENT = [
     "SELECT DISTINCT a FROM t",
     "SELECT ALL a FROM t",
     "SELECT a FROM t INNER JOIN u ON t.a = u.a",
+    # trees that differ only inside an arg that holds a list of plain strings
+    "CREATE TABLE foo (bar INT REFERENCES baz (baz_id) ON DELETE CASCADE)",
+    "CREATE TABLE foo (bar INT REFERENCES baz (baz_id) ON DELETE NO ACTION)",
+    "CREATE TABLE foo (bar INT REFERENCES baz (baz_id))",
+    "BEGIN TRANSACTION READ WRITE",
+    "BEGIN TRANSACTION READ ONLY",
+    "ALTER TABLE baa ADD CONSTRAINT boo PRIMARY KEY (x, y) NOT ENFORCED",
+    "ALTER TABLE baa ADD CONSTRAINT boo PRIMARY KEY (x, y) DEFERRABLE",
     "SELECT a FROM t GROUP BY a",
     "SELECT COUNT(*) FROM t",
     "SELECT CAST(a AS INT) FROM t",
